@@ -39,6 +39,17 @@ def check(ctx):
     q = ctx.tier == "quick"
     rnd = random.Random(ctx.seed)
     base = [G.dec(l) for l in C.load_corpus("sema")] + GP.gen_programs(ctx.seed + 70, 2500 if q else 40000)
+    # programs in which the standard library meets names that are already bound (double include, user gates or
+    # variables named like standard gates before / after the include): many diagnostics from ONE statement, whose
+    # order must not depend on anything but the text
+    std = ["x", "y", "z", "h", "s", "t", "sx", "cx", "cz", "swap", "ccx", "rz", "p", "id", "u3"]
+    for k in range(60 if q else 600):
+        names = rnd.sample(std, rnd.randint(2, 8))
+        pre = "".join(rnd.choice([f"gate {n} a {{ }}\n", f"gate {n}(t) a, b {{ }}\n", f"int {n};\n", f"qubit {n};\n"]) for n in names)
+        tail = rnd.choice(["qubit q;\nh q;\n", "", 'include "stdgates.inc";\n', "int k = 1;\n"])
+        base.append(rnd.choice([pre + 'include "stdgates.inc";\n' + tail,
+                                'include "stdgates.inc";\n' + pre + tail,
+                                'include "stdgates.inc";\nqubit q;\ninclude "stdgates.inc";\n' + tail]))
     near = [perturb(t, rnd) for t in base[: (1500 if q else 20000)]]
     base += [t for t in near if t]
     base = C.uniq(base)
@@ -67,12 +78,18 @@ def check(ctx):
     ctx.log(f"{len(base)} base programs, {len(variants)} variants")
     vout = C.run_impl(ctx, "sema", [G.enc(v[2]) for v in variants], tag="c17var")
     vast = C.run_impl(ctx, "ast", [G.enc(v[2]) for v in variants], tag="c17vast")
+    # payloads of the diagnostics (names in RedeclarationError), which the canonical line does not carry: two runs
+    tw = [k for k, v in enumerate(variants) if v[1] == "twice"]
+    pay1 = dict(zip(tw, C.run_impl(ctx, "semapay", [G.enc(variants[k][2]) for k in tw], tag="c17pay1")))
+    pay2 = dict(zip(tw, C.run_impl(ctx, "semapay", [G.enc(variants[k][2]) for k in tw], tag="c17pay2")))
     failures, nontriv, per_mode = [], 0, {}
-    for (i, mode, text, mp), o, va in zip(variants, vout, vast):
+    for vk, ((i, mode, text, mp), o, va) in enumerate(zip(variants, vout, vast)):
         b = recs[i]["impl"]
         per_mode[mode] = per_mode.get(mode, 0) + 1
         if mode == "twice":
             diffs = [] if o == b else [("determinism", b[:200], o[:200])]
+            if not diffs and pay1.get(vk) != pay2.get(vk) and not PL.canon_panic(pay1.get(vk) or ""):
+                diffs = [("determinism (diagnostic payloads)", str(pay1.get(vk))[:200], str(pay2.get(vk))[:200])]
         elif mode == "prefix":
             diffs = OC.compare_modulo(o, b, "prefix")
         else:
